@@ -114,6 +114,31 @@ def big_world(seed, i):
     return world
 
 
+def stdout_fault_task(task):
+    """trash-empty -v / trash-rm -v... with ONE failing write to stdout (the reader of a pipe went away, the disk is full):
+    whatever the program does about it - stop, or carry on - no state may hold a payload whose info file is gone"""
+    from .. import readcheck
+    from ..runner import driver, jsonable
+    world = big_world(task["seed"], 2 * task["i"])          # (the trash-empty variant: even index)
+    # a smaller directory is enough here
+    keep = {e["name"] for e in world["meta"]["entries"][:6]}
+    t = world["meta"]["entries"][0]["tdir"]
+    world["nodes"] = [n for n in world["nodes"] if not (n["p"].startswith(t + b"/files/") or n["p"].startswith(t + b"/info/")) or
+                      any(n["p"].startswith(t + b"/files/" + k) or n["p"] == t + b"/info/" + k + b".trashinfo" for k in keep)]
+    world["meta"]["entries"] = [e for e in world["meta"]["entries"] if e["name"] in keep]
+    world["opts"]["verbose"] = 1 + task["i"] % 2
+    world["argv"] = cmd_argv(world)
+    bad, runs = [], 0
+    for k in range(0, 14):
+        r = readcheck.evaluate(world, driver(), want_states=True, oracles=("crash15",), plan={"stdout_fault": {"only": k, "errno": ["EPIPE", "ENOSPC"][k % 2]}})
+        runs += 1
+        c = r["oracle"].get("crash15")
+        if c is not None and not c["ok"]:
+            bad.append({"failing_write": k, "verdict": c["verdict"], "world": jsonable(world)})
+            break
+    return {"runs": runs, "bad": bad, "key": (task["i"], len(keep))}
+
+
 def same_inode_world(seed, i):
     """trash-restore where what stands at the original location is the payload itself under another name (a hard link of it,
     a symbolic link to it), with and without --overwrite: rename(2) between two names of one inode does nothing and reports
@@ -156,6 +181,13 @@ def run(tier, seed):
     same_cfg = dict(CFG, tweak=None, violations=("crash15", "effects"))
     absorb(ck, run_tasks(eval_task, [{"pid": "C15", "seed": seed, "i": 0, "cfg": same_cfg, "world": same_inode_world(seed, i)}
                                      for i in range(8 if tier == "quick" else 40)]), same_cfg)
+    for r in run_tasks(stdout_fault_task, [{"seed": seed, "i": i} for i in range(4 if tier == "quick" else 30)]):
+        if "machinery" in r:
+            from ..lean import MachineryError
+            raise MachineryError(r["machinery"])
+        ck.case(("stdout-fault", r["key"], r["runs"]), tags=["stdout-fault"])
+        for b in r["bad"]:
+            ck.violation("payload-without-info after a failed write to stdout", {"oracle": "crash15", "stdout_fault": True}, b)
     big_cfg = dict(CFG, tweak=None, interrupt_sweep=0)
     absorb(ck, run_tasks(eval_task, [{"pid": "C15", "seed": seed, "i": 1, "cfg": big_cfg, "world": big_world(seed, i)}
                                      for i in range(2 if tier == "quick" else 12)]), big_cfg)
